@@ -260,7 +260,7 @@ fn main() {
         }
         // ---- next
         let real_next = catch(AssertUnwindSafe(|| layer.verif_next()));
-        let mut op = format!("next {k_alloc} {kc} {n}");
+        let mut op = format!("next {} {kc} {n}", street_no(case.street));
         for (i, p) in case.points.iter().enumerate() {
             let _ = write!(op, " {}", hist_str(p));
             for d in &rows[i] { let _ = write!(op, " {}", d.to_bits()); }
